@@ -1375,6 +1375,50 @@ func (l *loopInfo) indexBoundedBy(idx, recv ssa.Value) string {
 				return "index is the counted variable of a loop that starts at Len-1 of the same value and runs downwards while index >= 0"
 			}
 		}
+		// downward with an offset: for i := Len; i > 0; i-- { … Index(i-1) }: the index is the
+		// counter plus a constant c <= 0, the counter starts at Len+c0 with c0+c <= -1, steps
+		// down, and the loop runs while counter+c >= 0
+		if add, isAdd := idx.(*ssa.BinOp); isAdd && (add.Op == token.ADD || add.Op == token.SUB) && (bo.Op == token.GEQ || bo.Op == token.GTR) && bo.X == add.X {
+			cc, isK := constInt(add.Y)
+			phi, isPhi := add.X.(*ssa.Phi)
+			kk, isKK := constInt(bo.Y)
+			if isK && isPhi && isKK && phi.Block() == l.header {
+				if add.Op == token.SUB {
+					cc = -cc
+				}
+				// the loop runs while phi >= lo
+				lo := kk
+				if bo.Op == token.GTR {
+					lo = kk + 1
+				}
+				outside, inside := l.phiEdges(phi)
+				good := len(inside) > 0 && cc <= 0 && lo+cc >= 0
+				for _, e := range inside {
+					if st, isStep := stepOf(e, phi); !isStep || st > -1 {
+						good = false
+					}
+				}
+				for _, e := range outside {
+					c0 := int64(0)
+					base := e
+					if sub, isSub := e.(*ssa.BinOp); isSub && (sub.Op == token.SUB || sub.Op == token.ADD) {
+						if k0, isK0 := constInt(sub.Y); isK0 {
+							base = sub.X
+							c0 = k0
+							if sub.Op == token.SUB {
+								c0 = -k0
+							}
+						}
+					}
+					if !lenLike(base, recv, 0) || c0+cc > -1 {
+						good = false
+					}
+				}
+				if good {
+					return "index is the loop counter plus a constant; the counter starts at Len (plus a constant) of the same value, runs downwards, and the first index is at most Len-1 and the last at least 0"
+				}
+			}
+		}
 	}
 	return ""
 }
